@@ -112,7 +112,7 @@ setp('C20',
 
 KT = 'contract-based verification with Kani function contracts (proof_for_contract / stub_verified) on the real float code, woven into a scratch copy of the crate on every run'
 setp('C14',
- "Kani/CBMC, bit-precise f64, on the real send_rate.rs woven with contracts (strictly modular: leaves proved alone, callers with stub_verified leaves): ms_to_s, s_to_ms, update_rtt (first sample => rtt == sample, else 0.9*old + 0.1*sample bitwise, rtt_ms == round(1000*rtt)), update_rto (max(4R, 2s/X)), initial rates (4380/R, 736/R), eval_tcp_throughput (no panic/NaN; p == 0 => saturates); handle_feedback for ALL feedback values in the stated domain: X <= max_send_rate, throughput-equation phase X <= max(X_Bps(new rtt, p), s/64) and X >= s/64, slow start at most doubles or sets W_init/R and never doubles within one RTT, first loss enters the equation phase at X_target with the loss history initialised once; nofeedback_expired keeps or halves (floor s/64, D14), never exceeds the ceiling and never increases (D19), no assertion failure on repeated expiries (D18); step() without feedback before the deadline leaves X unchanged. These are loop-free full-domain proofs (complete). the bisection result in [0,1] is bounded (<= 6 evaluations). RecvRateSet (X_recv_set, integer code): the contracts the float callers assume are proved by Verus for every set size on the real bodies (closure predicates of `retain` annotated in place, weaver T16): never empty after an update (D3), exactly the entries older than 2 RTT are deleted, result == max of the set and >= the new report, replace_max keeps max(non-initial rates, new rate); only `max` (iterator adapter) and `loss_increase_update` (iter_mut + one f64 product) stay trusted/pinned there, with the bounded Kani harnesses (sets of <= 3 entries) as their check. Loss event rate (kani/floats/loss.rs): under the queue invariant `at most 9 intervals, each >= 1 frame` (proved by Verus on push_ack / push_nack / new) compute_loss_rate returns 0 for an empty history and otherwise a finite number in (0, 1], for every queue length 1..9 and all interval lengths (complete; lengths 4..8 in the thorough tier) - this discharges the domain precondition `loss_rate in [0,1]` of handle_feedback; reset(p0) keeps the invariant for every p0 in (0, 1]. Verus (unbounded, on the integer glue around the float code): HalfConnection::step hands flush() the controller's RTT/RTO estimates or the 150/600 ms initial guesses, and the RTT sample reported by FrameQueue::get_feedback is `now - newest acknowledged send time`.",
+ "Kani/CBMC, bit-precise f64, on the real send_rate.rs woven with contracts (strictly modular: leaves proved alone, callers with stub_verified leaves): ms_to_s, s_to_ms, update_rtt (first sample => rtt == sample, else 0.9*old + 0.1*sample bitwise, rtt_ms == round(1000*rtt)), update_rto (max(4R, 2s/X)), initial rates (4380/R, 736/R), eval_tcp_throughput (no panic/NaN; p == 0 => saturates); handle_feedback for ALL feedback values in the stated domain: X <= max_send_rate, throughput-equation phase X <= max(X_Bps(new rtt, p), s/64) and X >= s/64, slow start at most doubles or sets W_init/R and never doubles within one RTT, first loss enters the equation phase at X_target with the loss history initialised once; nofeedback_expired keeps or halves (floor s/64, D14), never exceeds the ceiling and never increases (D19), no assertion failure on repeated expiries (D18); step() without feedback before the deadline leaves X unchanged; the constructor starts at X = s with the negotiated ceiling and notify_frame_sent starts slow start with a 2 s no-feedback timer and X_recv_set = {infinity} (establishing the state invariant the other harnesses assume), later frames only clear the idle flag. These are loop-free full-domain proofs (complete). the bisection result in [0,1] is bounded (<= 6 evaluations). RecvRateSet (X_recv_set, integer code): the contracts the float callers assume are proved by Verus for every set size on the real bodies (closure predicates of `retain` annotated in place, weaver T16): never empty after an update (D3), exactly the entries older than 2 RTT are deleted, result == max of the set and >= the new report, replace_max keeps max(non-initial rates, new rate); only `max` (iterator adapter) and `loss_increase_update` (iter_mut + one f64 product) stay trusted/pinned there, with the bounded Kani harnesses (sets of <= 3 entries) as their check. Loss event rate (kani/floats/loss.rs): under the queue invariant `at most 9 intervals, each >= 1 frame` (proved by Verus on push_ack / push_nack / new) compute_loss_rate returns 0 for an empty history and otherwise a finite number in (0, 1], for every queue length 1..9 and all interval lengths (complete; lengths 4..8 in the thorough tier) - this discharges the domain precondition `loss_rate in [0,1]` of handle_feedback; reset(p0) keeps the invariant for every p0 in (0, 1]. Verus (unbounded, on the integer glue around the float code): HalfConnection::step hands flush() the controller's RTT/RTO estimates or the 150/600 ms initial guesses, and the RTT sample reported by FrameQueue::get_feedback is `now - newest acknowledged send time`.",
  "Trusted: Kani 0.68 / CBMC 6.11 (+ cvc5 1.0.3 and kissat back ends), CBMC's sqrt model (non-deterministic within ~1 ulp: bitwise equality of eval_tcp_throughput with a transcription of RFC 5348 3.1 is NOT provable; only 4 concrete points in the thorough tier). Domain preconditions: now_ms <= 2^62, feedback.rtt_ms <= 2^61, loss_rate in [0,1] (the crate's own loss-interval code produces nothing else: kani/floats/loss.rs), state invariants I1-I6 listed in kani/floats/callers.rs. WEAVE-K: harness modules appended to the real files, contract attributes inserted in front of the real functions; nothing else changes.",
  nd=["termination of eval_tcp_throughput_inv for all floats (argued: the interval strictly shrinks or the function returns, D5)", "eval_tcp_throughput == RFC formula bitwise (sqrt model)", "RecvRateSet::max / loss_increase_update beyond 3 entries (trusted contracts, validated bounded)", "compute_loss_rate == the RFC 5348 5.4 formula for all histories (7 concrete histories only: the equivalence of two float computations is out of CBMC's reach)"],
  nuc=["FeedbackGen::get_feedback (receive-rate division in f64: pinned frame contract only)"], technique=KT, units=['kani:floats'], thorough=['native:C14'])
